@@ -581,6 +581,44 @@ def stage_subset(ctx):
                      dict(kind="corr-subset", **metas[i]))
 
 
+def stage_subset_large(ctx):
+    """camera-sized images (several hundred pixels a side) with sparse and dense subsets: the same predicates as
+    stage_subset, evaluated directly (no model evaluation: the selection lists are long)"""
+    import numpy as np
+    from holopy.core.metadata import make_subset_data, detector_grid, flat
+    rng = ctx.subrng("subset-large")
+    for k in range(ctx.n(4, 16)):
+        nx, ny = rng.choice([(512, 512), (600, 520), (768, 700), (300, 1024), (1024, 257)])
+        n = nx * ny
+        npix = rng.choice([n // 64, n // 100, 3000, n // 300, 5000, n // 7])
+        seed = rng.choice([0, 1, rng.randint(2, 9999)])
+        im = detector_grid((nx, ny), 0.1)
+        im.values[...] = np.arange(n, dtype=float).reshape(im.shape)
+        sub, sel = make_subset_data(im, pixels=npix, return_selection=True, seed=seed)
+        sub2, sel2 = make_subset_data(im, pixels=npix, return_selection=True, seed=seed)
+        sel = np.asarray(sel).astype(int)
+        ctx.explored += 1
+        ctx.count("subset-large:%dx%d" % (nx, ny))
+        ctx.nontriv(("sub-large", nx, ny, npix))
+        m = dict(kind="subset-large", shape=[nx, ny], pixels=npix, seed=seed)
+        if len(np.unique(sel)) != npix or len(sel) != npix or sel.min() < 0 or sel.max() >= n:
+            ctx.violation("subset:distinct:large", "make_subset_data(%d x %d image, pixels=%d) did not draw %d distinct pixels "
+                          "(%d distinct)" % (nx, ny, npix, npix, len(np.unique(sel))), dict(clause="distinct", **m))
+            continue
+        if not np.array_equal(sel, np.asarray(sel2).astype(int)) or not np.array_equal(sub.values, sub2.values):
+            ctx.violation("subset:seed:large", "make_subset_data is not reproducible for seed=%r on a %d x %d image" % (seed, nx, ny),
+                          dict(clause="seed", **m))
+        fx = flat(im)
+        if not (np.array_equal(sub.values, fx.values[sel]) and np.array_equal(sub.x.values, fx.x.values[sel])
+                and np.array_equal(sub.y.values, fx.y.values[sel])):
+            ctx.violation("subset:keeps:large", "subset of a %d x %d image does not keep values / coordinates of the selected pixels"
+                          % (nx, ny), dict(clause="keeps", **m))
+        od = sub.attrs.get("original_dims")
+        if not (isinstance(od, dict) and all(np.array_equal(od[k_], im[k_].values) for k_ in im.dims)):
+            ctx.violation("subset:original_dims:large", "subset of a large image does not remember the original axes",
+                          dict(clause="original_dims", **m))
+
+
 def stage_crop_meta(ctx):
     import numpy as np
     from holopy.core.metadata import flat, update_metadata, to_vector
@@ -723,6 +761,14 @@ def real_case(p):
         if a.sizes['x'] and a.sizes['y']:
             b = calc(subimage(d, cc, 2), scat, **kw)
             out.append(("crop", float(np.abs(flat_order_values(a, "grid") - flat_order_values(b, "grid")).max()), scale))
+    # a second grid of the same shape, spacing and z at another origin, computed right after the first: against its
+    # own point list
+    tw = p.get("twin_shift") or [0.35, -0.2]
+    d2 = d.assign_coords(x=d.x + tw[0], y=d.y + tw[1])
+    f2 = flat(d2)
+    pts2 = detector_points(x=f2.x.values, y=f2.y.values, z=f2.z.values)
+    hv2 = flat_order_values(calc(d2, scat, **kw), "grid")
+    out.append(("shifted-twin", float(np.abs(flat_order_values(calc(pts2, scat, **kw), "flat") - hv2).max()), scale))
     # a second calculation on the same detector object gives the same answer (history)
     h2 = calc(d, scat, **kw)
     out.append(("repeat", float(np.abs(flat_order_values(h2, "grid") - hv).max()), scale))
@@ -1149,6 +1195,7 @@ def run(ctx):
     guarded(ctx, "coords", stage_coords, ctx)
     guarded(ctx, "calc", stage_calc, ctx)
     guarded(ctx, "subset", stage_subset, ctx)
+    guarded(ctx, "subset-large", stage_subset_large, ctx)
     guarded(ctx, "crop_meta", stage_crop_meta, ctx)
     guarded(ctx, "real", stage_real, ctx)
     guarded(ctx, "history", stage_history, ctx)
